@@ -195,6 +195,8 @@ the source; `Generated/C16.lean` holds the current lists, the harness reports a 
 def idxWritersM : List String := ["__init__", "append", "indices"]
 def namesWritersM : List String := ["__init__", "append_field", "remove_field", "rename_fields"]
 def lenWritersM : List String := ["__init__", "append"]
+/-- methods with an item assignment into a stored array (`self._data_fields[f][i] = …`) -/
+def arrayWritersM : List String := ["set_selection"]
 def delegatesM : List (String × List String) :=
   [("__getitem__", ["get_selection"]), ("__setitem__", ["append_field", "set_selection"]), ("tidy_up", ["remove_field"])]
 
